@@ -3,6 +3,7 @@ explicit sample mask and the size_biased flag (R24.3), NULL-edge guards (R24.4).
 
 import ast
 
+from . import nullidx
 from ..base import AnalysisError, Defs, U, bool_guards, formula, own_nodes, stmts, store_targets, walk_guarded
 from .common import e2_rule
 
@@ -113,6 +114,8 @@ def run(repo, res):
     res.rule("R24.2", "E2 conformance of the _count_mutations and _block_singletons call sites; mutation_span_array tallies only on mut.edge != NULL")
     res.rule("R24.3", "the explicit sample mask and the size_biased flag reach the kernel unchanged; the default mask is built from ts.samples()")
     res.rule("R24.4", "kernel tallies: the edge credited is looked up from the mutation's own node, increments are guarded by edge != NULL, the weight is the sample count iff size_biased")
+    res.rule("R24.5", "no id that may be tskit.NULL (a mutation's edge, a node's individual, entries of NULL-initialised tables) is used as an array index without a dominating NULL test: numpy would silently tally it on the last row")
+    nullidx.run(repo, res, "R24.5")
     kernel = repo.fn("rescaling", "_count_mutations")
     wrap = repo.fn("rescaling", "count_mutations")
     loc = lambda f, n=None: repo.loc(f, n)  # noqa: E731
@@ -158,7 +161,7 @@ def run(repo, res):
             if ".edge" in idx:
                 found = True
                 edge_expr = idx.split(",")[0].strip("() ")
-                ok = any(pol and U(e).replace(" ", "") in (f"{edge_expr}!=tskit.NULL", f"tskit.NULL!={edge_expr}") for e, pol in bool_guards(g))
+                ok = nullidx._guarded(g, edge_expr)
                 res.require(ok, "R24.2", "mutation_span_array tally guarded by edge != NULL", f"increment `{U(s)}` is not guarded by `{edge_expr} != tskit.NULL`", loc(msa, s), U(s))
     if not found:
         raise AnalysisError("R24.2: tally increment not found in mutation_span_array")
@@ -206,7 +209,7 @@ def run(repo, res):
     res.require(okme, "R24.4", "_count_mutations records the credited edge per mutation", "mutations_edge store is not `mutations_edge[m] = e` under the NULL guard", loc(kernel))
 
 
-VARIANTS = [
+VARIANTS = [dict(v, rule="R24.5") for v in nullidx.VARIANTS] + [
     dict(name="assert-ne", mod="rescaling", expect="fire", rule="R24.1",
          old="        assert node_is_sample.size == ts.num_nodes", new="        assert node_is_sample.size != ts.num_nodes"),
     dict(name="default-sized-by-samples", mod="rescaling", expect="fire", rule="R24.1",
